@@ -42,13 +42,53 @@ def build_jobs(inst):
     return jobs
 
 
+def _custom_first_job_only(dispatcher, operations):
+    return operations[:1]
+
+
+def _custom_last_job_only(dispatcher, operations):
+    return operations[-1:]
+
+
+def _custom_hide_earliest(dispatcher, operations):
+    if not operations:
+        return []
+    t = dispatcher.min_start_time(operations)
+    rest = [
+        op
+        for op in operations
+        if min(dispatcher.start_time(op, m) for m in op.machines) > t
+    ]
+    return rest or list(operations)
+
+
+def _custom_identity(dispatcher, operations):
+    return list(operations)
+
+
+CUSTOM_FILTERS = {
+    "custom_first_job_only": _custom_first_job_only,
+    "custom_last_job_only": _custom_last_job_only,
+    "custom_hide_earliest": _custom_hide_earliest,
+    "custom_identity": _custom_identity,
+}
+
+
+def _one_filter(name):
+    if name in CUSTOM_FILTERS:
+        return CUSTOM_FILTERS[name]
+    return name
+
+
 def build_filter(names):
-    """None, a single built-in filter function, or a composition."""
+    """None, a single filter function, or a composition; names starting with
+    ``custom_`` are user-written callables (a ready-operations filter is any
+    callable (dispatcher, operations) -> operations)."""
     if names is None:
         return None
     if len(names) == 1:
-        return ready_operations_filter_factory(names[0])
-    return create_composite_operation_filter(list(names))
+        return ready_operations_filter_factory(_one_filter(names[0]))
+    return create_composite_operation_filter([_one_filter(n) for n in names])
 
 
 def ref(inst):
